@@ -8,7 +8,7 @@ Line protocol of the C20 driver.  A schedule is replayed over the abstract per-d
   <i> new                                  -> <out> ; <state of document i>
   <i> load <ns> <fatal|-> <mask|-> item*   item = lib|id|ens|fault   (fault `-` = loads fine)
   <i> ignore <cls,cls|->
-  <i> add <lib> <id>     <i> remove <lib> <id>     <i> save
+  <i> add <lib> <id>     <i> remove <lib> <id>     <i> save     <i> query
   proj <i>      -> outs=<o>/<o>/… ; <state>   projection of `run` over the whole recorded schedule
   solo <i>      -> same, from the solo run of document i's own operations
   globals       -> tagNs=… sharedMask=…
@@ -47,6 +47,7 @@ def parseOp : List String → Option Op
   | ["add", l, id] => (parseLib l).map (fun l => .add l id)
   | ["remove", l, id] => (parseLib l).map (fun l => .remove l id)
   | ["save"] => some .save
+  | ["query"] => some .query
   | _ => none
 
 def showOut : Out → String
